@@ -319,7 +319,7 @@ h("cont.H_OptionalFault", map[string]int{"rounds": 3, "order_schemes": 1}, map[s
 				h("cont.H_Order", bld(3, 3, 2), bld(0, 3, 2), []string{"both_built", "both_failed_or_differ"}, 20, "the same world registered and built twice: registration order permuted (intra-group order kept) and another map-order scheme; verdict classes equal, wiring of both isomorphic to the model, every singleton constructed after the singletons it received"),
 				h("cont.H_Order", bld(0, 2, 2), bld(0, 2, 4), []string{"both_built", "both_failed_or_differ"}, 0, "as above, every plain dependency shape on two registrations"),
 				h("cont.H_Order", bld(1, 2, 2), bld(1, 2, 4), []string{"both_built", "both_failed_or_differ"}, 0, "as above on keyed / group / interface edges"),
-				h("cont.H_Order", bld(2, 2, 2), bld(2, 3, 2), []string{"both_built", "both_failed_or_differ"}, 0, "as above on initializers and multi-output constructors (multi-return, result object) with dependencies"),
+				h("cont.H_Order", bld(2, 2, 2), bld(2, 2, 4), []string{"both_built", "both_failed_or_differ"}, 0, "as above on initializers and multi-output constructors (multi-return, result object) with dependencies"),
 				h("cont.H_Build", bld(2, 2, 2), bld(2, 3, 1), buildCov, 0, buildDesc+"; under C06: what the container recorded as the dependencies of EVERY output of a multi-output constructor equals what the constructor declares (construction order is computed from it)"),
 				h("cont.H_Order", bld(5, 4, 1), bld(5, 4, 2), []string{"both_built", "both_failed_or_differ"}, 0, "as above on four singleton registrations: consumers of an interface-typed value group, group members with plain dependencies of their own (a member may sit deeper in the graph than the members registered after it); four registration orders"),
 				h("cont.H_Rebuild", with2(bld(5, 4, 1), "edit", 1), with2(bld(5, 4, 2), "edit", 1), append([]string{"first_build_ok", "first_build_failed"}, buildCov...), 0, "a collection is built while one (symbolic) registration of the world is still missing; that registration is added afterwards: the provider built before never runs its constructor and holds nothing scoped in a non-scoped instance; the second Build judges the full set like a fresh collection and returns the verdict class a fresh collection with the same registrations returns"),
